@@ -78,6 +78,7 @@ def hex_to_int(ip, t, pure):
         b = t.arg(0)
         if not pure and ip.ctx.branch(sym.blen(b) == 0, "int-empty"):
             raise Raise("ValueError")
+        sym.wf_upper(b)
         return mkint(sym.bval(b))
     # general: text accepted iff it is a non-empty hex text (we model only lowercase/uppercase hex of even
     # or odd length through ishex for even lengths; anything else is outside the model)
@@ -366,6 +367,7 @@ def _from_bytes(ip, fv, args, kwargs, pure):
         t = sym.brev(t)
     elif order != "big":
         raise Unsupported("byteorder")
+    sym.wf_upper(t)
     return mkint(sym.bval(t))
 
 
